@@ -640,9 +640,10 @@ def obligations(tier):
                 obs.append(Ob('omd_step', timeout=T, pins={'cls': ci, 'op': op, 'nmax': 2 if q else 3, 'mode': 'sym'}))
         obs.append(Ob('omd_derived', timeout=T, pins={'cls': ci, 'nmax': 3 if q else 4}))
     if not q:
+        second = ('add', 'setitem', 'delitem', 'update_pairs', 'poplast_key', 'popitem', 'copy_copy', 'update_omd')
         for op in range(len(OPS)):
             for op_b in range(len(OPS)):
-                if OPS[op] in ('update_self', 'ctor') or OPS[op_b] in ('ctor',):
+                if OPS[op] in ('update_self', 'ctor') or OPS[op_b] not in second:
                     continue
                 obs.append(Ob('omd_step2', timeout=T, pins={'cls': 0, 'op': op, 'op_b': op_b, 'nmax': 2}))
     return obs
